@@ -285,7 +285,9 @@ func (db *RockDB) incr(ts int64, key []byte, delta int64) (int64, error) {
 
 //	ps : here just focus on deleting the key-value data,
 //		 any other likes expire is ignore.
-func (db *RockDB) kvDel(key []byte, wb engine.WriteBatch) (int64, error) {
+//	     a value that is already expired at ts (the timestamp of the raft entry, 0 if unknown) is
+//	     removed as well but is not counted as a deleted key: it was dead for every reader
+func (db *RockDB) kvDel(ts int64, key []byte, wb engine.WriteBatch) (int64, error) {
 	rawKey := key
 	table, key, err := convertRedisKeyToDBKVKey(key)
 	if err != nil {
@@ -294,9 +296,12 @@ func (db *RockDB) kvDel(key []byte, wb engine.WriteBatch) (int64, error) {
 	delCnt := int64(1)
 	if db.cfg.EnableTableCounter {
 		if !db.cfg.EstimateTableCounter {
-			vok, _ := db.ExistNoLock(key)
-			if vok {
+			v, _ := db.GetBytesNoLock(key)
+			if v != nil {
 				db.IncrTableKeyCount(table, -1, wb)
+				if expired, _ := db.expiration.isExpired(ts, KVType, rawKey, v, false); expired {
+					delCnt = int64(0)
+				}
 			} else {
 				delCnt = int64(0)
 			}
@@ -339,6 +344,13 @@ func (db *RockDB) DecrBy(ts int64, key []byte, decrement int64) (int64, error) {
 }
 
 func (db *RockDB) DelKeys(keys ...[]byte) (int64, error) {
+	return db.DelKeysAt(0, keys...)
+}
+
+// DelKeysAt deletes the keys at the timestamp ts of the raft entry: the reply counts the keys that
+// were live at ts (an expired value that is still stored is removed but not counted, so that the
+// reply does not depend on whether a compaction has dropped it already)
+func (db *RockDB) DelKeysAt(ts int64, keys ...[]byte) (int64, error) {
 	if len(keys) == 0 {
 		return 0, nil
 	}
@@ -356,7 +368,7 @@ func (db *RockDB) DelKeys(keys ...[]byte) (int64, error) {
 			}
 			handled[string(k)] = struct{}{}
 		}
-		c, _ := db.kvDel(k, db.wb)
+		c, _ := db.kvDel(ts, k, db.wb)
 		delCnt += c
 	}
 
@@ -700,7 +712,7 @@ func (db *RockDB) DelIfEQ(ts int64, rawKey []byte, oldV []byte) (int64, error) {
 	if !bytes.Equal(realV, oldV) && !keyInfo.Expired {
 		n = 0
 	} else {
-		return db.DelKeys(rawKey)
+		return db.DelKeysAt(ts, rawKey)
 	}
 	return n, err
 }
